@@ -184,3 +184,23 @@ def reach_relations(nodes, preds_or_succ, is_succ):
             if b != a and b in may.get('pre', set()) | {'pre'} and b not in seen:
                 dom[b].add(a)
     return may, dom
+
+
+def reachable_without(preds_or_succ, is_succ, removed, start='pre'):
+    """Nodes reachable from `start` once the nodes in `removed` are taken out of the graph."""
+    succ = {}
+    if is_succ:
+        for a, bs in preds_or_succ.items():
+            succ.setdefault(a, set()).update(bs)
+    else:
+        for b, as_ in preds_or_succ.items():
+            for a in as_:
+                succ.setdefault(a, set()).add(b)
+    seen, work = set(), [start]
+    while work:
+        x = work.pop()
+        if x in seen or x in removed:
+            continue
+        seen.add(x)
+        work.extend(succ.get(x, ()))
+    return seen
